@@ -91,6 +91,25 @@ def gen_case(seed):
     ops += [("send", 0, {"set": {"transactionId": wt, "key": "witness/final", "value": wt}}), ("send", 0, {"get": {"transactionId": wt + 1000, "key": "witness/final"}})]
     return ops
 
+def odd_key_table():
+    """every request kind that names a key, a pattern or a parent, with every odd key once (not left to chance): after each
+    batch the witness must still be served"""
+    kinds = [("get", "key", {}), ("cGet", "key", {}), ("set", "key", {"value": 1}), ("cSet", "key", {"value": 1, "version": 0}), ("delete", "key", {}), ("publish", "key", {"value": 1}),
+             ("sPubInit", "key", {}), ("subscribe", "key", {"unique": False}), ("lock", "key", {}), ("acquireLock", "key", {}), ("releaseLock", "key", {}),
+             ("pGet", "requestPattern", {}), ("pDelete", "requestPattern", {"quiet": None}), ("pSubscribe", "requestPattern", {"unique": False}),
+             ("ls", "parent", {}), ("subscribeLs", "parent", {}), ("pLs", "parentPattern", {})]
+    keys = [k for k in ODD_KEYS if len(k) < 500] + ["a/", "/a", "a/b/", "///", "?/", "#/", "a/?/", "$SYS/", "$SYS/clients/"]
+    cases = []
+    for kind, field, extra in kinds:
+        ops = [("open", 0), ("open", 1), ("send", 0, {"set": {"transactionId": 100, "key": "witness/100", "value": 100}})]
+        t = 0
+        for k in keys:
+            t += 1
+            ops.append(("send", 1, {kind: {"transactionId": t, field: k, **extra}}))
+        ops += [("send", 0, {"set": {"transactionId": 101, "key": "witness/101", "value": 101}}), ("send", 0, {"get": {"transactionId": 1101, "key": "witness/101"}})]
+        cases.append((f"odd-{kind}", ops))
+    return cases
+
 def witness_oracle(ops, lines):
     """the server keeps running and the well-behaved session keeps being answered correctly"""
     if any(l in ("HARNESS-FAILURE", "crash") for l in lines) or len(lines) < len(ops):
@@ -116,7 +135,7 @@ def run(v, tier, seed):
                                        ("send", 1, {"releaseLock": {"transactionId": 3, "key": "y"}}), ("send", 0, {"set": {"transactionId": 101, "key": "witness/101", "value": 101}}), ("send", 0, {"get": {"transactionId": 1101, "key": "witness/101"}})]),
               ("F1-rejected-cset", [("open", 0), ("open", 1), ("send", 1, {"cSet": {"transactionId": 1, "key": "p/q/r", "value": 1, "version": 5}}), ("send", 1, {"set": {"transactionId": 2, "key": "z", "value": 1}}),
                                     ("send", 1, {"delete": {"transactionId": 3, "key": "z"}}), ("send", 0, {"set": {"transactionId": 101, "key": "witness/101", "value": 101}}), ("send", 0, {"get": {"transactionId": 1101, "key": "witness/101"}})])]
-    cases = corpus + cases
+    cases = corpus + odd_key_table() + cases
     cpath = os.path.join(work, "cases.txt")
     write_cases(cpath, [(nm, ["cfg auth=0"] + [R(o) for o in ops]) for nm, ops in cases])
     impl, model = run_engine("session", "session_driver", cpath, work)
@@ -150,6 +169,6 @@ def run(v, tier, seed):
                      "impl": proj(A[nm][i]), "model": proj(B[nm][i]), "disagreeing_cases": len(set(n_ for n_, _ in diffs)),
                      "broken_obligation": "correspondence session/C17 (Model/Session.v sstep SGarbage/close_session; decoder agreement on malformed input)"}, no_input=True)
     v.cov.update({"evaluations": len(cases), "distinct_nontrivial": len(nontrivial), "disagreements": len(diffs), "lines_sent": lines_sent, "sessions_closed_by_server": closed,
-                  "rule": f"a real in-process server (debug build: the developers' debug assertions are on) with a unix endpoint; a well-behaved witness session interleaved with two attacker sessions sending {n} random sequences of truncated / non-JSON / deeply nested lines, valid messages with absurd keys (empty, only separators, 3000-byte, 300-level, NUL, wildcards everywhere), ids and versions at the u64 boundary, huge and deeply nested values, unknown variants, protocol-version switches, plus the corpus of the repaired crash sequences (F1, F7); oracle: the witness's set/get round trips keep succeeding and its session stays open; projection compared with the model: the witness's messages and which session closes when; non-trivial = at least one attacker session was closed by the server",
+                  "rule": f"a table of every key-, pattern- or parent-naming request kind with every odd key (empty, slashes only, trailing and leading slash, wildcards in odd places, $SYS, control characters, 300 levels) + a real in-process server (debug build: the developers' debug assertions are on) with a unix endpoint; a well-behaved witness session interleaved with two attacker sessions sending {n} random sequences of truncated / non-JSON / deeply nested lines, valid messages with absurd keys (empty, only separators, 3000-byte, 300-level, NUL, wildcards everywhere), ids and versions at the u64 boundary, huge and deeply nested values, unknown variants, protocol-version switches, plus the corpus of the repaired crash sequences (F1, F7); oracle: the witness's set/get round trips keep succeeding and its session stays open; projection compared with the model: the witness's messages and which session closes when; non-trivial = at least one attacker session was closed by the server",
                   "samples": samples,
                   "not_covered": "panics inside serde_json, tokio, hashbrown, allocation failure and stack depth are exercised by this stream as a test only; they are not modelled"})
